@@ -52,56 +52,63 @@ def lift(x):
     raise TypeError("cannot lift %r" % (x,))
 
 
+def shadow(x):
+    """exact value of x under the fixed sample assignment of the variables"""
+    from fractions import Fraction
+
+    if isinstance(x, ZF):
+        return x.sh
+    return Fraction(x)
+
+
+def _scalar(o):
+    return isinstance(o, (ZF, int, float)) and not isinstance(o, bool)
+
+
 class ZF:
-    """a z3 Float64 term behaving like a Python float under + - * / and comparisons"""
+    """a z3 Float64 term behaving like a Python float under + - * / and comparisons; it also carries the
+    exact (rational) value the expression has for a fixed sample assignment of the variables, which tells
+    what exact arithmetic would give (e.g. the length of a float range)"""
 
-    __slots__ = ("e",)
+    __slots__ = ("e", "sh")
 
-    def __init__(self, e):
+    def __init__(self, e, sh=None):
         self.e = e
+        self.sh = sh
+
+    def _bin(self, o, f, g, swap=False):
+        if not _scalar(o):
+            return NotImplemented
+        a, b = (lift(o), self.e) if swap else (self.e, lift(o))
+        sa, sb = (shadow(o), self.sh) if swap else (self.sh, shadow(o))
+        return ZF(f(RNE, a, b), g(sa, sb) if sa is not None and sb is not None else None)
 
     def __add__(self, o):
-        if not isinstance(o, (ZF, int, float)) or isinstance(o, bool):
-            return NotImplemented
-        return ZF(z3.fpAdd(RNE, self.e, lift(o)))
+        return self._bin(o, z3.fpAdd, lambda x, y: x + y)
 
     def __radd__(self, o):
-        if not isinstance(o, (ZF, int, float)) or isinstance(o, bool):
-            return NotImplemented
-        return ZF(z3.fpAdd(RNE, lift(o), self.e))
+        return self._bin(o, z3.fpAdd, lambda x, y: x + y, True)
 
     def __sub__(self, o):
-        if not isinstance(o, (ZF, int, float)) or isinstance(o, bool):
-            return NotImplemented
-        return ZF(z3.fpSub(RNE, self.e, lift(o)))
+        return self._bin(o, z3.fpSub, lambda x, y: x - y)
 
     def __rsub__(self, o):
-        if not isinstance(o, (ZF, int, float)) or isinstance(o, bool):
-            return NotImplemented
-        return ZF(z3.fpSub(RNE, lift(o), self.e))
+        return self._bin(o, z3.fpSub, lambda x, y: x - y, True)
 
     def __mul__(self, o):
-        if not isinstance(o, (ZF, int, float)) or isinstance(o, bool):
-            return NotImplemented
-        return ZF(z3.fpMul(RNE, self.e, lift(o)))
+        return self._bin(o, z3.fpMul, lambda x, y: x * y)
 
     def __rmul__(self, o):
-        if not isinstance(o, (ZF, int, float)) or isinstance(o, bool):
-            return NotImplemented
-        return ZF(z3.fpMul(RNE, lift(o), self.e))
+        return self._bin(o, z3.fpMul, lambda x, y: x * y, True)
 
     def __truediv__(self, o):
-        if not isinstance(o, (ZF, int, float)) or isinstance(o, bool):
-            return NotImplemented
-        return ZF(z3.fpDiv(RNE, self.e, lift(o)))
+        return self._bin(o, z3.fpDiv, lambda x, y: x / y)
 
     def __rtruediv__(self, o):
-        if not isinstance(o, (ZF, int, float)) or isinstance(o, bool):
-            return NotImplemented
-        return ZF(z3.fpDiv(RNE, lift(o), self.e))
+        return self._bin(o, z3.fpDiv, lambda x, y: x / y, True)
 
     def __neg__(self):
-        return ZF(z3.fpNeg(self.e))
+        return ZF(z3.fpNeg(self.e), -self.sh if self.sh is not None else None)
 
     def __lt__(self, o):
         return ZB(z3.fpLT(self.e, lift(o)))
@@ -127,8 +134,10 @@ class ZF:
         return "ZF(%s)" % (str(self.e)[:60],)
 
 
-def var(name):
-    return ZF(z3.FP(name, F64))
+def var(name, sample=None):
+    from fractions import Fraction
+
+    return ZF(z3.FP(name, F64), Fraction(sample) if sample is not None else None)
 
 
 def arange_len(start, stop, step):
@@ -191,17 +200,38 @@ _TRAIL = None
 
 
 class _Trail:
-    def __init__(self, prefix):
+    def __init__(self, prefix, base=(), prune_timeout_ms=0):
         self.prefix = list(prefix)  # forced decisions
-        self.taken = []  # (z3 cond, bool)
+        self.taken = []  # (z3 cond, bool, flippable)
+        self.base = list(base)
+        self.prune_timeout_ms = prune_timeout_ms
+
+    def _feasible(self, extra):
+        s = z3.Solver()
+        s.set("timeout", self.prune_timeout_ms)
+        for c in self.base:
+            s.add(c)
+        for c, d, _ in self.taken:
+            s.add(c if d else z3.Not(c))
+        s.add(extra)
+        return str(s.check()) != "unsat"
 
     def decide(self, e):
         i = len(self.taken)
         if i < len(self.prefix):
-            d = self.prefix[i]
+            d, flippable = self.prefix[i], False
+        elif self.prune_timeout_ms:
+            t_ok = self._feasible(e)
+            f_ok = self._feasible(z3.Not(e))
+            if t_ok and f_ok:
+                d, flippable = True, True
+            elif t_ok:
+                d, flippable = True, False
+            else:
+                d, flippable = False, False
         else:
-            d = True
-        self.taken.append((e, d))
+            d, flippable = True, True
+        self.taken.append((e, d, flippable))
         return d
 
 
@@ -219,15 +249,16 @@ def _zb_bool(self):
 ZB.__bool__ = _zb_bool
 
 
-def explore(fn, max_paths=64):
-    """run fn() once per feasible-looking decision sequence; yields
+def explore(fn, max_paths=64, base=(), prune_timeout_ms=0):
+    """run fn() once per decision sequence; with prune_timeout_ms every new decision is checked against the
+    path condition (+ base constraints) and infeasible sides are not explored; yields
     (path_condition_list, result_or_exception)"""
     global _TRAIL
     todo = [[]]
     out = []
     while todo and len(out) < max_paths:
         prefix = todo.pop()
-        _TRAIL = _Trail(prefix)
+        _TRAIL = _Trail(prefix, base, prune_timeout_ms)
         try:
             try:
                 res = fn()
@@ -238,9 +269,66 @@ def explore(fn, max_paths=64):
             taken = _TRAIL.taken
         finally:
             _TRAIL = None
-        pc = [c if d else z3.Not(c) for c, d in taken]
+        pc = [c if d else z3.Not(c) for c, d, _ in taken]
         out.append((pc, res))
-        # schedule the flips of the decisions made beyond the forced prefix
         for i in range(len(prefix), len(taken)):
-            todo.append([d for _, d in taken[:i]] + [not taken[i][1]])
+            if taken[i][2]:
+                todo.append([d for _, d, _ in taken[:i]] + [not taken[i][1]])
     return out
+
+
+class ZI:
+    """integer obtained from a float term (truncation); usable as an index: concretised by forking"""
+
+    def __init__(self, e, sh=None):
+        self.e = e
+        self.sh = sh
+
+    def _lift(self, o):
+        return o.e if isinstance(o, ZI) else z3.IntVal(int(o))
+
+    def __add__(self, o):
+        return ZI(self.e + self._lift(o))
+
+    def __sub__(self, o):
+        return ZI(self.e - self._lift(o))
+
+    def __lt__(self, o):
+        return ZB(self.e < self._lift(o))
+
+    def __le__(self, o):
+        return ZB(self.e <= self._lift(o))
+
+    def __gt__(self, o):
+        return ZB(self.e > self._lift(o))
+
+    def __ge__(self, o):
+        return ZB(self.e >= self._lift(o))
+
+    def __eq__(self, o):
+        return ZB(self.e == self._lift(o))
+
+    def __ne__(self, o):
+        return ZB(self.e != self._lift(o))
+
+    __hash__ = None
+    BOUND = 16
+
+    def __index__(self):
+        for k in range(-1, self.BOUND + 1):
+            if ZB(self.e == k):
+                return k
+        raise SymbolicBranch("index outside the bound")
+
+    __int__ = __index__
+
+
+def _zf_int(self):
+    import math
+
+    sh = None if self.sh is None else math.trunc(self.sh)
+    return ZI(z3.ToInt(z3.fpToReal(z3.fpRoundToIntegral(z3.RTZ(), self.e))), sh)
+
+
+ZF.__int__ = _zf_int
+ZF.__trunc__ = _zf_int
